@@ -159,7 +159,7 @@ def check_C15(tier, seed):
                 sc.append(ops + track_probes(2, bases))
             for b in ("min", "edge"):
                 sc.append([trackchecks.mk("create", snap=bases[b])] + track_probes(1, bases))
-            ws.append(Workload(s, sc, [], flags={"stale_get": True}, origin=res["instance"] + " + probes"))
+            ws.append(Workload(s, sc, [], flags={"stale_get": True, "raw": True}, origin=res["instance"] + " + probes"))
         return ws
 
     return checks.history_check(
